@@ -71,6 +71,10 @@ def instances(tier, seed):
                   kinds = [rng.choice(list(PYVALS)) for _ in range(n)]
                   kinds[0] = "arr"
                   out.append(("pool", dict(skel=sk, spec=spec, kinds=kinds, prior=["a"], maxrank=1)))
+    for sk in ("nt", "t2", "nest"):
+        out.append(("pool", dict(skel=sk, spec=("tup", [("py", "int"), ("py", "int")]), kinds=["int"] * SKEL[sk][0], prior=[], maxrank=1)))
+        out.append(("pool", dict(skel=sk, spec=("union", [("tup", [("py", "int"), ("py", "int")]), ("py", "str")]),
+                                 kinds=["int"] * SKEL[sk][0], prior=[], maxrank=1)))
     rng.shuffle(out)
     ncore = 260 if tier == "quick" else len(out)
     return [("core" if i < ncore else "ext", x) for i, (_, x) in enumerate(out)]
